@@ -673,7 +673,7 @@ func genMatchers(r *rand.Rand, series []seriesIn, ext []string) []matcherIn {
 			vals[s.Labels[i]] = append(vals[s.Labels[i]], s.Labels[i+1])
 		}
 	}
-	names := []string{"__name__", "a", "a", "b", "b", "c", "id", "nolabel"}
+	names := []string{"__name__", "__name__", "a", "a", "a", "b", "b", "b", "c", "id", "nolabel"}
 	n := common.Pick(r, 1, 1, 1, 2, 2, 3)
 	var ms []matcherIn
 	for len(ms) < n {
@@ -765,7 +765,7 @@ func genConfigs(r *rand.Rand) []configIn {
 func gen(r *rand.Rand, tier string, n int) []any {
 	var out []any
 	for len(out) < n {
-		for q := 0; q < 2 && len(out) < n; q++ {
+		if len(out) < n {
 			out = append(out, genPart(r))
 		}
 		series, ext := genBlock(r, tier)
@@ -782,7 +782,11 @@ func gen(r *rand.Rand, tier string, n int) []any {
 			if !hasNonExt {
 				continue
 			}
-			switch r.Intn(6) {
+			tk := r.Intn(9)
+			if tk >= 6 { // more weight on ranges that contain data
+				tk = []int{0, 0, 4}[tk-6]
+			}
+			switch tk {
 			case 5: // exactly on a chunk boundary of some series (first sample, last sample of the first chunk, first of the second)
 				sp := series[r.Intn(len(series))]
 				n := sp.Count
